@@ -83,6 +83,8 @@ private theorem iterDec_le (f : Bytes → Except Err (Val × Bytes)) (hf : ∀ b
 
 private theorem decB_le (l : BLeaf) (bs r : Bytes) (n : Nat) (h : decB l bs = .ok (n, r)) : r.length ≤ bs.length := by
   cases l with
+  | u8 => exact decInt_le 1 .le bs r n h
+  | u16 => exact decInt_le 2 .le bs r n h
   | u32 => exact decInt_le 4 .le bs r n h
   | pg =>
     simp only [decB] at h
@@ -219,6 +221,104 @@ private theorem decUpdateMask_le (bs : Bytes) (v : Val) (r : Bytes) (h : decUpda
           rw [← h.2]; omega
         · cases h
 
+private theorem decSlots_le (dec : Bytes → Except Err (Val × Bytes)) (hf : ∀ bs v r, dec bs = .ok (v, r) → r.length ≤ bs.length) :
+    ∀ (m : List Bool) (bs : Bytes) (vs : List Val) (r : Bytes), decSlots dec m bs = .ok (vs, r) → r.length ≤ bs.length
+  | [], bs, vs, r, h => by simp [decSlots] at h; rw [h.2]; exact Nat.le_refl _
+  | false :: m, bs, vs, r, h => by
+    simp only [decSlots] at h
+    cases h1 : decSlots dec m bs with
+    | error x => simp [h1] at h
+    | ok q =>
+      obtain ⟨vs', r1⟩ := q
+      simp only [h1, Except.ok.injEq, Prod.mk.injEq] at h
+      rw [← h.2]; exact decSlots_le dec hf m bs vs' r1 h1
+  | true :: m, bs, vs, r, h => by
+    simp only [decSlots] at h
+    cases h0 : dec bs with
+    | error x => simp [h0] at h
+    | ok p =>
+      obtain ⟨e, r0⟩ := p
+      cases h1 : decSlots dec m r0 with
+      | error x => simp [h0, h1] at h
+      | ok q =>
+        obtain ⟨vs', r1⟩ := q
+        simp only [h0, h1, Except.ok.injEq, Prod.mk.injEq] at h
+        have a := hf bs e r0 h0
+        have b := decSlots_le dec hf m r0 vs' r1 h1
+        rw [← h.2]; omega
+
+private theorem decMask_le (w : Nat) (dec : Bytes → Except Err (Val × Bytes)) (hf : ∀ bs v r, dec bs = .ok (v, r) → r.length ≤ bs.length)
+    (bs : Bytes) (v : Val) (r : Bytes) (h : decMask w dec bs = .ok (v, r)) : r.length ≤ bs.length := by
+  simp only [decMask] at h
+  cases h0 : decInt w .le bs with
+  | error x => simp [h0] at h
+  | ok p =>
+    obtain ⟨pat, r0⟩ := p
+    have a0 := decInt_le w .le bs r0 pat h0
+    cases h1 : decSlots dec (natToBits (8 * w) pat) r0 with
+    | error x => simp [h0, h1] at h
+    | ok q =>
+      obtain ⟨vs, r1⟩ := q
+      simp only [h0, h1, Except.ok.injEq, Prod.mk.injEq] at h
+      have b := decSlots_le dec hf _ r0 vs r1 h1
+      rw [← h.2]; omega
+
+private theorem decGear_le (bs : Bytes) (v : Val) (r : Bytes) (h : decGear bs = .ok (v, r)) : r.length ≤ bs.length := by
+  simp only [decGear] at h
+  cases h0 : decB .u32 bs with
+  | error x => simp [h0] at h
+  | ok p =>
+    obtain ⟨item, r0⟩ := p
+    cases h1 : decMask 2 (decTuple [.u16]) r0 with
+    | error x => simp [h0, h1] at h
+    | ok q =>
+      obtain ⟨em, r1⟩ := q
+      cases h2 : decBs gearTail r1 with
+      | error x => simp [h0, h1, h2] at h
+      | ok q2 =>
+        obtain ⟨fs, r2⟩ := q2
+        simp only [h0, h1, h2, Except.ok.injEq, Prod.mk.injEq] at h
+        have a := decB_le .u32 bs r0 item h0
+        have b := decMask_le 2 (decTuple [.u16]) (fun bs v r hh => decTuple_le _ bs v r hh) r0 em r1 h1
+        have c := decBs_le gearTail r1 fs r2 h2
+        rw [← h.2]; omega
+
+private theorem decNamedGuid_le (bs : Bytes) (v : Val) (r : Bytes) (h : decNamedGuid bs = .ok (v, r)) : r.length ≤ bs.length := by
+  simp only [decNamedGuid] at h
+  cases h0 : decInt 8 .le bs with
+  | error x => simp [h0] at h
+  | ok p =>
+    obtain ⟨g, r0⟩ := p
+    have a0 := decInt_le 8 .le bs r0 g h0
+    simp only [h0] at h
+    split at h
+    · simp only [Except.ok.injEq, Prod.mk.injEq] at h; rw [← h.2]; exact a0
+    · cases hs : splitAtZero r0 with
+      | none => simp [hs] at h
+      | some q =>
+        obtain ⟨s, r1⟩ := q
+        simp only [hs, Except.ok.injEq, Prod.mk.injEq] at h
+        have := splitAtZero_le r0 s r1 hs
+        rw [← h.2]; omega
+
+private theorem decVirp_le (bs : Bytes) (v : Val) (r : Bytes) (h : decVirp bs = .ok (v, r)) : r.length ≤ bs.length := by
+  simp only [decVirp] at h
+  cases h0 : decInt 4 .le bs with
+  | error x => simp [h0] at h
+  | ok p =>
+    obtain ⟨g, r0⟩ := p
+    have a0 := decInt_le 4 .le bs r0 g h0
+    simp only [h0] at h
+    split at h
+    · simp only [Except.ok.injEq, Prod.mk.injEq] at h; rw [← h.2]; exact a0
+    · cases h1 : decInt 4 .le r0 with
+      | error x => simp [h1] at h
+      | ok q =>
+        obtain ⟨sf, r1⟩ := q
+        simp only [h1, Except.ok.injEq, Prod.mk.injEq] at h
+        have := decInt_le 4 .le r0 r1 sf h1
+        rw [← h.2]; omega
+
 theorem decPrim_no_growth (name : String) (bs r : Bytes) (v : Val) (h : decPrim name bs = .ok (v, r)) : r.length ≤ bs.length := by
   unfold decPrim at h
   cases hk : primKind name with
@@ -238,6 +338,10 @@ theorem decPrim_no_growth (name : String) (bs r : Bytes) (v : Val) (h : decPrim 
     | error x => simp [h1] at h
     | ok q => obtain ⟨vs, r1⟩ := q; simp only [h1, Except.ok.injEq, Prod.mk.injEq] at h; rw [← h.2]; exact decSplines_le bs vs r1 h1
   | updateMask => simp only [hk] at h; exact decUpdateMask_le bs v r h
+  | mask w ls => simp only [hk] at h; exact decMask_le w (decTuple ls) (fun bs v r hh => decTuple_le _ bs v r hh) bs v r h
+  | gear => simp only [hk] at h; exact decMask_le 4 decGear decGear_le bs v r h
+  | namedGuid => simp only [hk] at h; exact decNamedGuid_le bs v r h
+  | virp => simp only [hk] at h; exact decVirp_le bs v r h
   | other => simp [hk] at h
 
 theorem decLeaf_no_growth (l : Leaf) (bs r : Bytes) (v : Val) (h : decLeaf l bs = .ok (v, r)) : r.length ≤ bs.length := by
